@@ -78,6 +78,13 @@ BUILT: dict[str, dict[str, str]] = {
         note="Study name fixed; n_jobs=1; CmaEs unavailable; GP only in the thorough tier.",
         ref="DESIGN.md 3/C09",
     ),
+    "C13": dict(
+        technique="metamorphic property testing (Hypothesis): generated objective programs x seeded samplers x pruners run twice -- as given and with a generated subset of objectives flipped (direction toggled, values and reports negated, thresholds mirrored); per-trial params / states / reported steps / negated values and best trial(s) must coincide",
+        category="exploration",
+        text="Generated-configuration metamorphic search over every sampler x pruner pair reachable offline and every subset of flipped objectives, with pairwise-distinct values and dyadic reports so that exact mirroring is well defined. Absence of counterexamples in the explored region only.",
+        note="In-memory storage; GA samplers under HyperbandPruner are not generated (they crash independently of direction).",
+        ref="DESIGN.md 3/C13",
+    ),
 }
 
 NOT_YET: dict[str, str] = {}
